@@ -85,6 +85,14 @@ pub(crate) mod empty {
         }
     }
 
+    #[cfg(chokan_verif)]
+    impl Empty {
+        /// verification hook: the slot index
+        pub fn verif_index(&self) -> usize {
+            self.0
+        }
+    }
+
     #[cfg(test)]
     mod tests {
         use super::*;
@@ -382,6 +390,14 @@ pub(crate) mod label {
         }
 
         /// 内部で保持しているラベルの集合を返す
+        /// verification hook: the (character, label) pairs, sorted by label
+        #[cfg(chokan_verif)]
+        pub fn verif_pairs(&self) -> Vec<(char, u8)> {
+            let mut v: Vec<(char, u8)> = self.labels.iter().map(|(k, v)| (*k, *v)).collect();
+            v.sort_by_key(|p| p.1);
+            v
+        }
+
         pub fn label_set(&self) -> Vec<Label> {
             let mut labels: Vec<_> = self.labels.values().map(|v| Label(*v)).collect();
             labels.push(Label::new(self.labels.len() as u8 + 1));
